@@ -469,7 +469,9 @@ fn grid(thorough: bool) -> Vec<Cfg> {
                     // lookups / blinding / circuit size / hasher vary along the grid
                     let lookups = (t + si) % 3 == 0;
                     // blinding multiplies the degree by the number of openings: keep it to few queries
-                    let zk = (t + rate) % 4 == 0 && q == 10 && !matches!(strat, Fixed(v) if v.is_empty());
+                    let zk = (t + rate) % 4 == 0 && q == 10 && !matches!(strat, Fixed(v) if v.is_empty())
+                        // blinding under MinSize / ConstantArityBits gives LDE sizes 2^14..2^17 (tens of seconds): thorough only
+                        && (thorough || matches!(strat, Fixed(_)));
                     let rows = [0usize, 3, 9, 20][(t + qi) % 4];
                     let keccak = t % 5 == 0;
                     if !thorough && (t + si) % 2 == 1 {
@@ -502,6 +504,15 @@ fn grid(thorough: bool) -> Vec<Cfg> {
     out
 }
 
+struct Timer(std::time::Instant, String, bool);
+impl Drop for Timer {
+    fn drop(&mut self) {
+        if self.2 && self.0.elapsed().as_millis() > 500 {
+            eprintln!("[c16] {} ms {}", self.0.elapsed().as_millis(), self.1);
+        }
+    }
+}
+
 fn real(args: &[String]) -> anyhow::Result<()> {
     let thorough = args.iter().any(|a| a == "--thorough");
     let nproofs = opt_usize(args, "--proofs", 3);
@@ -514,6 +525,8 @@ fn real(args: &[String]) -> anyhow::Result<()> {
     let mut st = Stats::default();
     let mut r = rng(1601);
     for cfg in grid(thorough).into_iter().take(limit) {
+        let t0 = std::time::Instant::now();
+        let _guard = Timer(t0, cfg.id(), std::env::var("C16_TIMES").is_ok());
         if cfg.keccak {
             one_config::<KeccakGoldilocksConfig>(&cfg, nproofs, &mut r, &mut st, &mut traces, flip);
         } else {
